@@ -86,12 +86,15 @@ Proof.
 Qed.
 
 
+Definition acc (a : answer) : bool := answer_eqb a Accepted.
+
 Section Push.
-  Context (srv : N -> N -> N -> bool * N).
+  Context (srv : N -> N -> N -> N -> answer * N).
 
   (** ** The request loop, ref by ref *)
-  Definition pproj (st : push_state) (n : N) : N * list (N * (N * N)) * bool :=
-    (gget (p_remote st) n, filter (fun u => fst u =? n) (p_pushed st), mem N.eqb n (p_rejected st)).
+  Definition pproj (st : push_state) (n : N) : N * list (N * (N * N)) * bool * bool :=
+    (gget (p_remote st) n, filter (fun u => fst u =? n) (p_pushed st),
+     mem N.eqb n (p_rejected st), mem N.eqb n (p_remote_rejected st)).
 
   Lemma filter_key_snoc_same {B} n (l : list (N * B)) x :
     filter (fun u => fst u =? n) (l ++ [(n, x)]) = filter (fun u => fst u =? n) l ++ [(n, x)].
@@ -110,34 +113,34 @@ Section Push.
   Lemma push_one_other st u n : n <> fst u -> pproj (push_one srv st u) n = pproj st n.
   Proof.
     intros H. destruct u as [m [b a]]. cbn [fst] in H. unfold push_one, pproj.
-    destruct (srv (gget (p_remote st) m) b a) as [ok cur'].
-    cbn [p_remote p_pushed p_rejected]. rewrite gget_gset.
+    destruct (srv m (gget (p_remote st) m) b a) as [ans cur'].
+    cbn [p_remote p_pushed p_rejected p_remote_rejected]. rewrite gget_gset.
     assert (E : m =? n = false) by now apply N.eqb_neq, not_eq_sym. rewrite E.
-    destruct ok.
-    - now rewrite filter_key_snoc_other.
-    - rewrite mem_snoc. apply N.eqb_neq in H. rewrite H. now rewrite Bool.orb_false_r.
+    apply N.eqb_neq in H.
+    destruct ans; rewrite ?filter_key_snoc_other, ?mem_snoc, ?H, ?Bool.orb_false_r
+      by (now apply N.eqb_neq); reflexivity.
   Qed.
-  Definition push_eff (u : N * (N * N)) (p : N * list (N * (N * N)) * bool) :=
-    let '(cur, ps, rj) := p in
-    let r := srv cur (fst (snd u)) (snd (snd u)) in
-    (snd r, if fst r then ps ++ [u] else ps, if fst r then rj else true).
+  Definition push_eff (u : N * (N * N)) (p : N * list (N * (N * N)) * bool * bool) :=
+    let '(cur, ps, rj, rr) := p in
+    let r := srv (fst u) cur (fst (snd u)) (snd (snd u)) in
+    (snd r, if acc (fst r) then ps ++ [u] else ps,
+     if answer_eqb (fst r) LeaseRejected then true else rj,
+     if answer_eqb (fst r) RemoteRejected then true else rr).
   Lemma push_one_same st u : pproj (push_one srv st u) (fst u) = push_eff u (pproj st (fst u)).
   Proof.
     destruct u as [m [b a]]. cbn [fst snd]. unfold push_one, pproj, push_eff. cbn [fst snd].
-    destruct (srv (gget (p_remote st) m) b a) as [ok cur'].
-    cbn [p_remote p_pushed p_rejected fst snd]. rewrite gget_gset, N.eqb_refl.
-    destruct ok.
-    - now rewrite filter_key_snoc_same.
-    - rewrite mem_snoc, N.eqb_refl. now rewrite Bool.orb_true_r.
+    destruct (srv m (gget (p_remote st) m) b a) as [ans cur'].
+    cbn [p_remote p_pushed p_rejected p_remote_rejected fst snd]. rewrite gget_gset, N.eqb_refl.
+    destruct ans; cbn [acc answer_eqb];
+      rewrite ?filter_key_snoc_same, ?mem_snoc, ?N.eqb_refl, ?Bool.orb_true_r; reflexivity.
   Qed.
 
-  Definition requests (v : jview) (names : list N) : list (N * (N * N)) := ref_updates v names.
   Definition after_requests (v : jview) (remote : gmap) (names : list N) : push_state :=
-    fold_left (push_one srv) (ref_updates v names) (mk_push remote [] []).
+    fold_left (push_one srv) (ref_updates v names) (mk_push remote [] [] []).
 
   Lemma requests_not_asked v remote names n :
     ~ In n (map fst (ref_updates v names)) ->
-    pproj (after_requests v remote names) n = (gget remote n, [], false).
+    pproj (after_requests v remote names) n = (gget remote n, [], false, false).
   Proof.
     intros H. unfold after_requests.
     rewrite (fold_untouched fst (push_one srv) pproj push_one_other _ _ n H). reflexivity.
@@ -145,14 +148,16 @@ Section Push.
   Lemma requests_asked v remote names n b a : NoDup names ->
     In (n, (b, a)) (ref_updates v names) ->
     pproj (after_requests v remote names) n =
-    let r := srv (gget remote n) b a in
-    (snd r, if fst r then [(n, (b, a))] else [], negb (fst r)).
+    let r := srv n (gget remote n) b a in
+    (snd r, if acc (fst r) then [(n, (b, a))] else [],
+     answer_eqb (fst r) LeaseRejected, answer_eqb (fst r) RemoteRejected).
   Proof.
     intros Hnd Hin. unfold after_requests.
     rewrite (fold_keyed fst (push_one srv) pproj push_eff push_one_other push_one_same
                _ (ref_updates_nodup v names Hnd) _ (n, (b, a)) Hin).
-    unfold pproj, push_eff. cbn [p_remote p_pushed p_rejected fst snd filter mem existsb app].
-    destruct (fst (srv (gget remote n) b a)); reflexivity.
+    unfold pproj, push_eff.
+    cbn [p_remote p_pushed p_rejected p_remote_rejected fst snd filter mem existsb app].
+    destruct (fst (srv n (gget remote n) b a)); reflexivity.
   Qed.
 
   (** ** The recording phase leaves everything of a name that was not pushed alone *)
@@ -293,12 +298,14 @@ End Push.
 
 (** * The theorems of the property *)
 Section Theorems.
-  Context (srv : N -> N -> N -> bool * N).
-  (** The contract assumed of the remote (git's --force-with-lease): a ref changes only if its
-      current value is the expected one, then to the requested value, and the update is
-      reported as accepted. *)
-  Hypothesis srv_cas : forall cur e v,
-    snd (srv cur e v) <> cur -> cur = e /\ snd (srv cur e v) = v /\ fst (srv cur e v) = true.
+  Context (srv : N -> N -> N -> N -> answer * N).
+  (** The contract assumed of the remote (git's --force-with-lease, with or without server
+      hooks): a ref changes only if its current value is the expected one, then to the
+      requested value, and the update is reported as accepted. In particular both kinds of
+      rejection leave the ref alone. *)
+  Hypothesis srv_cas : forall n cur e v,
+    snd (srv n cur e v) <> cur ->
+    cur = e /\ snd (srv n cur e v) = v /\ fst (srv n cur e v) = Accepted.
 
   Lemma asked_dec v names n :
     {ba | In (n, ba) (ref_updates v names)} + {~ In n (map fst (ref_updates v names))}.
@@ -323,39 +330,39 @@ Section Theorems.
     fold (after_requests srv v remote names) in *.
     destruct (asked_dec v names n) as [[[b a] Hin]|Hno].
     - pose proof (requests_asked srv v remote names n b a Hnd Hin) as P. cbv zeta in P.
-      unfold pproj in P. injection P as P1 P2 P3.
-      rewrite P1 in Hne |- *. destruct (srv_cas _ _ _ Hne) as [C1 [C2 C3]].
+      unfold pproj in P. injection P as P1 P2 P3 P4.
+      rewrite P1 in Hne |- *. destruct (srv_cas _ _ _ _ Hne) as [C1 [C2 C3]].
       apply ref_updates_in in Hin. destruct Hin as [Hn Hc].
       apply classify_update in Hc. destruct Hc as [-> [-> [Hl [Hr _]]]].
       rewrite C2, C1, !resolved_oid_of by assumption.
       repeat split; try assumption.
       apply in_pushed_names. rewrite P2, C3. discriminate.
     - pose proof (requests_not_asked srv v remote names n Hno) as P.
-      unfold pproj in P. injection P as P1 _ _. congruence.
+      unfold pproj in P. injection P as P1 _ _ _. congruence.
   Qed.
 
+  (** pushed, rejected (lease) and remote_rejected are pairwise disjoint subsets of the
+      considered names. *)
   Lemma pushed_or_rejected v remote backing names n : NoDup names ->
     let q := push srv v remote backing names in
-    (In n (q_pushed q) -> ~ In n (q_rejected q))
-    /\ (In n (q_rejected q) -> In n names)
+    (In n (q_pushed q) -> ~ In n (q_rejected q) /\ ~ In n (q_remote_rejected q))
+    /\ (In n (q_rejected q) -> In n names /\ ~ In n (q_remote_rejected q))
+    /\ (In n (q_remote_rejected q) -> In n names)
     /\ (In n (q_pushed q) -> In n names).
   Proof.
-    intros Hnd q. subst q. unfold push. cbn [q_pushed q_rejected].
+    intros Hnd q. subst q. unfold push. cbn [q_pushed q_rejected q_remote_rejected].
     fold (after_requests srv v remote names).
     destruct (asked_dec v names n) as [[[b a] Hin]|Hno].
     - pose proof (requests_asked srv v remote names n b a Hnd Hin) as P. cbv zeta in P.
-      unfold pproj in P. injection P as _ P2 P3.
+      unfold pproj in P. injection P as _ P2 P3 P4.
       apply ref_updates_in in Hin. destruct Hin as [Hn _].
-      repeat split; try (intros; assumption).
-      intros Hp Hr. apply in_pushed_names in Hp. apply mem_spec in Hr.
-      rewrite P2 in Hp. rewrite P3 in Hr.
-      destruct (fst (srv (gget remote n) b a)); [discriminate|now apply Hp].
+      rewrite in_pushed_names, <- !mem_spec, P2, P3, P4.
+      destruct (fst (srv n (gget remote n) b a)); cbn [acc answer_eqb];
+        repeat split; intros; try (now apply mem_spec); try discriminate; try congruence; auto.
     - pose proof (requests_not_asked srv v remote names n Hno) as P.
-      unfold pproj in P. injection P as _ P2 P3.
-      repeat split.
-      + intros Hp. apply in_pushed_names in Hp. now rewrite P2 in Hp.
-      + intros Hr. apply mem_spec in Hr. rewrite P3 in Hr. discriminate.
-      + intros Hp. apply in_pushed_names in Hp. now rewrite P2 in Hp.
+      unfold pproj in P. injection P as _ P2 P3 P4.
+      rewrite in_pushed_names, <- !mem_spec, P2, P3, P4.
+      repeat split; intros; try discriminate; try congruence.
   Qed.
 
   Theorem rejected_untouched v remote backing names n : NoDup names ->
@@ -366,7 +373,7 @@ Section Theorems.
           /\ rget (j_remote (q_view q)) n = rget (j_remote v) n
           /\ get (j_grefs (q_view q)) n = get (j_grefs v) n
           /\ gget (q_backing q) n = gget backing n)
-    /\ (In n (q_rejected q) -> ~ In n (q_pushed q)).
+    /\ (In n (q_rejected q) \/ In n (q_remote_rejected q) -> ~ In n (q_pushed q)).
   Proof.
     intros Hnd q. split; [apply push_keeps_local|]. split.
     - intros Hn. split.
@@ -374,39 +381,51 @@ Section Theorems.
         exfalso. apply Hn. now apply (push_cas v remote backing names n Hnd).
       + now apply not_pushed_untouched.
     - intros Hr Hp. destruct (pushed_or_rejected v remote backing names n Hnd) as [H _].
-      now apply H.
+      destruct (H Hp). tauto.
   Qed.
 End Theorems.
 
-(** The behaviour of git 2.39 that the correspondence runs use satisfies the contract. *)
-Lemma git_srv_cas cur e v :
-  snd (git_srv cur e v) <> cur ->
-  cur = e /\ snd (git_srv cur e v) = v /\ fst (git_srv cur e v) = true.
+(** The behaviour of git 2.39 (against a remote whose update hook refuses the names in
+    [deny]) that the correspondence runs use satisfies the contract. *)
+Lemma git_srv_cas deny n cur e v :
+  snd (git_srv deny n cur e v) <> cur ->
+  cur = e /\ snd (git_srv deny n cur e v) = v /\ fst (git_srv deny n cur e v) = Accepted.
 Proof.
   unfold git_srv. destruct (negb (v =? 0) && (cur =? v)); cbn [fst snd]; [congruence|].
   destruct (cur =? e) eqn:E; cbn [fst snd]; [|congruence].
-  apply N.eqb_eq in E. auto.
+  apply N.eqb_eq in E. destruct (mem N.eqb n deny); cbn [fst snd]; [congruence|auto].
 Qed.
-Lemma git_srv_accept_only cur e v : fst (git_srv cur e v) = true -> cur = e \/ cur = v.
+Lemma git_srv_accept_only deny n cur e v :
+  fst (git_srv deny n cur e v) = Accepted -> cur = e \/ cur = v.
 Proof.
   unfold git_srv. destruct (negb (v =? 0) && (cur =? v)) eqn:A; cbn [fst snd].
   - apply Bool.andb_true_iff in A. destruct A as [_ A]. apply N.eqb_eq in A. auto.
   - destruct (cur =? e) eqn:E; cbn [fst snd]; [|discriminate]. apply N.eqb_eq in E. auto.
 Qed.
-Lemma git_srv_accepted cur e v : fst (git_srv cur e v) = true -> snd (git_srv cur e v) = v.
+Lemma git_srv_accepted deny n cur e v :
+  fst (git_srv deny n cur e v) = Accepted -> snd (git_srv deny n cur e v) = v.
 Proof.
   unfold git_srv. destruct (negb (v =? 0) && (cur =? v)) eqn:A; cbn [fst snd].
   - apply Bool.andb_true_iff in A. destruct A as [_ A]. apply N.eqb_eq in A. auto.
-  - destruct (cur =? e); cbn [fst snd]; [auto|discriminate].
+  - destruct (cur =? e); cbn [fst snd]; [|discriminate].
+    destruct (mem N.eqb n deny); cbn [fst snd]; [discriminate|auto].
+Qed.
+(** A stale lease is the only cause of a lease rejection. *)
+Lemma git_srv_lease_complete deny n cur v : fst (git_srv deny n cur cur v) <> LeaseRejected.
+Proof.
+  unfold git_srv. destruct (negb (v =? 0) && (cur =? v)); cbn [fst]; [discriminate|].
+  rewrite N.eqb_refl. destruct (mem N.eqb n deny); discriminate.
 Qed.
 
-Lemma git_contract cur e v :
-  (snd (git_srv cur e v) <> cur ->
-     cur = e /\ snd (git_srv cur e v) = v /\ fst (git_srv cur e v) = true)
-  /\ (fst (git_srv cur e v) = true -> cur = e \/ cur = v)
-  /\ (fst (git_srv cur e v) = true -> snd (git_srv cur e v) = v).
+Lemma git_contract deny n cur e v :
+  (snd (git_srv deny n cur e v) <> cur ->
+     cur = e /\ snd (git_srv deny n cur e v) = v /\ fst (git_srv deny n cur e v) = Accepted)
+  /\ (fst (git_srv deny n cur e v) = Accepted -> cur = e \/ cur = v)
+  /\ (fst (git_srv deny n cur e v) = Accepted -> snd (git_srv deny n cur e v) = v)
+  /\ fst (git_srv deny n cur cur v) <> LeaseRejected.
 Proof.
-  split; [apply git_srv_cas|]. split; [apply git_srv_accept_only|apply git_srv_accepted].
+  split; [apply git_srv_cas|]. split; [apply git_srv_accept_only|].
+  split; [apply git_srv_accepted|apply git_srv_lease_complete].
 Qed.
 
 (** * Accepted refs are recorded, and the record then equals the remote *)
@@ -418,8 +437,9 @@ Proof.
 Qed.
 
 Section Recorded.
-  Context (srv : N -> N -> N -> bool * N).
-  Hypothesis srv_accepted : forall cur e v, fst (srv cur e v) = true -> snd (srv cur e v) = v.
+  Context (srv : N -> N -> N -> N -> answer * N).
+  Hypothesis srv_accepted : forall n cur e v,
+    fst (srv n cur e v) = Accepted -> snd (srv n cur e v) = v.
 
   (** what is in [p_pushed] *)
   Lemma pushed_entries v remote names n b a : NoDup names ->
@@ -432,12 +452,13 @@ Section Recorded.
     { apply filter_In. split; [assumption|]. cbn [fst]. apply N.eqb_refl. }
     destruct (asked_dec v names n) as [[[b' a'] Hask]|Hno].
     - pose proof (requests_asked srv v remote names n b' a' Hnd Hask) as P. cbv zeta in P.
-      unfold pproj in P. injection P as P1 P2 _. rewrite P2 in Hf.
-      destruct (fst (srv (gget remote n) b' a')) eqn:F; [|contradiction].
+      unfold pproj in P. injection P as P1 P2 _ _. rewrite P2 in Hf.
+      destruct (fst (srv n (gget remote n) b' a')) eqn:F; cbn [acc answer_eqb] in Hf;
+        try contradiction.
       destruct Hf as [E|[]]. injection E as -> ->. split; [assumption|].
       rewrite P1. now apply srv_accepted.
     - pose proof (requests_not_asked srv v remote names n Hno) as P.
-      unfold pproj in P. injection P as _ P2 _. rewrite P2 in Hf. contradiction.
+      unfold pproj in P. injection P as _ P2 _ _. rewrite P2 in Hf. contradiction.
   Qed.
   Lemma pushed_keys_nodup v remote names : NoDup names ->
     NoDup (map fst (p_pushed (after_requests srv v remote names))).
@@ -451,9 +472,10 @@ Section Recorded.
     { induction ups as [|u ups IH]; intros st H; cbn [fold_left].
       - now rewrite app_nil_r in H.
       - apply IH. destruct u as [m [b a]]. unfold push_one.
-        destruct (srv (gget (p_remote st) m) b a) as [ok cur']. cbn [p_pushed].
-        destruct ok.
+        destruct (srv m (gget (p_remote st) m) b a) as [ans cur']. cbn [p_pushed].
+        destruct ans.
         + now rewrite <- app_assoc.
+        + rewrite map_app in *. cbn [map fst] in H. apply NoDup_remove_1 in H. exact H.
         + rewrite map_app in *. cbn [map fst] in H. apply NoDup_remove_1 in H. exact H. }
     intros Hu. apply G. exact Hu.
   Qed.
@@ -691,6 +713,7 @@ Definition PushOk (ns : list N) (pre post : psnap) (pushed rejected : list N) (n
   /\ (In n pushed ->
         tracked_target rr' = l /\ resolved c' = l
         /\ get (s_grefs post) n = l /\ gget (s_backing post) n = c')
+  /\ (rr' = rr \/ tracked_target rr' = resolved c')
   /\ (In n rejected -> ~ In n pushed /\ In n ns).
 
 Lemma push_name_ok_spec ns pre post pushed rejected n :
@@ -719,38 +742,44 @@ Section ModelPasses.
     destruct (k =? n); [reflexivity|exact IH].
   Qed.
 
-  (** The model's own push (with git's observed behaviour) satisfies the checker. *)
-  Theorem model_push_ok v remote backing ns n : NoDup ns ->
-    let q := push git_srv v remote backing ns in
+  (** The model's own push (with git's observed behaviour, hooks included) satisfies the
+      checker. *)
+  Theorem model_push_ok deny v remote backing ns n : NoDup ns ->
+    let q := push (git_srv deny) v remote backing ns in
     PushOk ns (psnap_of (mk_world v remote backing))
               (psnap_of (mk_world (q_view q) (q_remote q) (q_backing q)))
-              (q_pushed q) (q_rejected q) n.
+              (q_pushed q) (q_rejected q ++ q_remote_rejected q) n.
   Proof.
     intros Hnd q. unfold PushOk, psnap_of.
     cbn [s_local s_remote_bm s_grefs s_backing s_remote w_view w_remote w_backing].
     rewrite !rget_roundtrip.
-    destruct (rejected_untouched git_srv git_srv_cas v remote backing ns n Hnd) as [L [U RJ]].
-    destruct (pushed_recorded git_srv git_srv_accepted v remote backing ns n Hnd) as [_ P].
+    destruct (rejected_untouched (git_srv deny) (git_srv_cas deny) v remote backing ns n Hnd) as [L [U RJ]].
+    destruct (pushed_recorded (git_srv deny) (git_srv_accepted deny) v remote backing ns n Hnd) as [_ P].
     fold q in L, U, RJ, P.
-    split; [now rewrite L|]. split; [|split; [|split]].
+    split; [now rewrite L|]. split; [|split; [|split; [|split]]].
     - destruct (N.eq_dec (gget (q_remote q) n) (gget remote n)) as [E|E]; [now left|right].
-      destruct (push_cas git_srv git_srv_cas v remote backing ns n Hnd E) as [A [B [C _]]].
+      destruct (push_cas (git_srv deny) (git_srv_cas deny) v remote backing ns n Hnd E) as [A [B [C _]]].
       fold q in B, C. auto.
     - intros Hn. destruct (U Hn) as [A [B [C D]]]. auto.
     - intros Hp. destruct (P Hp) as [A [B [C D]]]. rewrite B, C, <- A. auto.
-    - intros Hr. split; [now apply RJ|].
-      destruct (pushed_or_rejected git_srv v remote backing ns n Hnd) as [_ [H _]]. now apply H.
+    - destruct (in_dec N.eq_dec n (q_pushed q)) as [Hp|Hn].
+      + right. destruct (P Hp) as [_ [B _]]. exact B.
+      + left. now destruct (U Hn) as [_ [B _]].
+    - intros Hr. apply in_app_iff in Hr. split; [now apply RJ|].
+      destruct (pushed_or_rejected (git_srv deny) v remote backing ns n Hnd) as [_ [H1 [H2 _]]].
+      destruct Hr as [Hr|Hr]; [now apply H1|now apply H2].
   Qed.
 End ModelPasses.
 
 (** * Schedules: every change of the remote is attributed *)
 Section Schedules.
-  Context (srv : N -> N -> N -> bool * N) (anc : N -> N -> bool) (auto : bool).
-  Hypothesis srv_cas : forall cur e v,
-    snd (srv cur e v) <> cur -> cur = e /\ snd (srv cur e v) = v /\ fst (srv cur e v) = true.
+  Context (srv : N -> N -> N -> N -> answer * N) (anc : N -> N -> bool) (auto : bool).
+  Hypothesis srv_cas : forall n cur e v,
+    snd (srv n cur e v) <> cur ->
+    cur = e /\ snd (srv n cur e v) = v /\ fst (srv n cur e v) = Accepted.
 
   Definition push_names_ok (s : pstep) : Prop :=
-    match s with Push ns _ _ _ _ _ => NoDup ns | _ => True end.
+    match s with Push ns _ _ _ _ _ _ => NoDup ns | _ => True end.
 
   (** One step of any schedule from any world: if the remote's value of [n] changed, then
       either somebody else did it, or it was a jj push that considered [n] while the remote
@@ -758,16 +787,16 @@ Section Schedules.
   Theorem remote_change_attributed w s n : push_names_ok s ->
     gget (w_remote (step_world srv anc auto w s)) n <> gget (w_remote w) n ->
     (exists c, s = Ext n c)
-    \/ (exists ns pre post pushed rejected unexported,
-          s = Push ns pre post pushed rejected unexported /\ In n ns
+    \/ (exists ns pre post pushed rejected rrejected unexported,
+          s = Push ns pre post pushed rejected rrejected unexported /\ In n ns
           /\ resolved (gget (w_remote w) n) = tracked_target (rget (j_remote (w_view w)) n)
           /\ resolved (gget (w_remote (step_world srv anc auto w s)) n) = get (j_local (w_view w)) n).
   Proof.
-    destruct s as [m c|m t|m b|pre post|ns pre post pushed rejected unexported];
+    destruct s as [m c|m t|m b|pre post|ns pre post pushed rejected rrejected unexported];
       cbn [step_world w_remote push_names_ok]; intros Hnd Hne; try congruence.
     - left. exists c. rewrite gget_gset in Hne.
       destruct (m =? n) eqn:E; [apply N.eqb_eq in E; now subst|congruence].
-    - right. exists ns, pre, post, pushed, rejected, unexported.
+    - right. exists ns, pre, post, pushed, rejected, rrejected, unexported.
       destruct (push_cas srv srv_cas (w_view w) (w_remote w) (w_backing w) ns n Hnd Hne) as [A [B [_ D]]].
       auto.
   Qed.
@@ -777,14 +806,15 @@ Section Schedules.
     let w := run_world srv anc auto steps1 w0 in
     gget (w_remote (step_world srv anc auto w s)) n <> gget (w_remote w) n ->
     (exists c, s = Ext n c)
-    \/ (exists ns pre post pushed rejected unexported,
-          s = Push ns pre post pushed rejected unexported /\ In n ns
+    \/ (exists ns pre post pushed rejected rrejected unexported,
+          s = Push ns pre post pushed rejected rrejected unexported /\ In n ns
           /\ resolved (gget (w_remote w) n) = tracked_target (rget (j_remote (w_view w)) n)
           /\ resolved (gget (w_remote (step_world srv anc auto w s)) n) = get (j_local (w_view w)) n).
   Proof. intros H w. apply remote_change_attributed. exact H. Qed.
 
   (** The remote accepts only when the lease matches or the ref already has the new value. *)
-  Hypothesis srv_accept_only : forall cur e v, fst (srv cur e v) = true -> cur = e \/ cur = v.
+  Hypothesis srv_accept_only : forall n cur e v,
+    fst (srv n cur e v) = Accepted -> cur = e \/ cur = v.
 
   (** A push that finds the remote at a value different from jj's record (and not already at
       the value jj wants to push) is rejected for that ref: the remote ref, jj's record of
@@ -807,15 +837,16 @@ Section Schedules.
       apply in_pushed_names in Hp.
       destruct (asked_dec (w_view w) ns n) as [[[b a] Hask]|Hno].
       - pose proof (requests_asked srv (w_view w) (w_remote w) ns n b a Hnd Hask) as P.
-        cbv zeta in P. unfold pproj in P. injection P as _ P2 _. rewrite P2 in Hp.
-        destruct (fst (srv (gget (w_remote w) n) b a)) eqn:F; [|now apply Hp].
+        cbv zeta in P. unfold pproj in P. injection P as _ P2 _ _. rewrite P2 in Hp.
+        destruct (fst (srv n (gget (w_remote w) n) b a)) eqn:F; cbn [acc answer_eqb] in Hp;
+          [|now apply Hp|now apply Hp].
         apply ref_updates_in in Hask. destruct Hask as [_ Hc]. apply classify_update in Hc.
         destruct Hc as [Hb [Ha [Hl [Hr _]]]].
-        destruct (srv_accept_only _ _ _ F) as [E|E].
+        destruct (srv_accept_only _ _ _ _ F) as [E|E].
         + apply Hst. rewrite E, Hb. now apply resolved_oid_of.
         + apply Hnew. now rewrite E, Ha.
       - pose proof (requests_not_asked srv (w_view w) (w_remote w) ns n Hno) as P.
-        unfold pproj in P. injection P as _ P2 _. now rewrite P2 in Hp. }
+        unfold pproj in P. injection P as _ P2 _ _. now rewrite P2 in Hp. }
     destruct (rejected_untouched srv srv_cas (w_view w) (w_remote w) (w_backing w) ns n Hnd)
       as [L [U _]]. fold q in L, U.
     destruct (U Hnp) as [A [B [C _]]]. auto.
@@ -861,43 +892,44 @@ Proof.
   constructor; [|auto]. apply Bool.negb_true_iff in H1. now apply mem_false.
 Qed.
 
-Theorem replay_implies_steps_ok anc auto names steps : forall w,
-  replay anc auto names steps w = true -> steps_ok names steps = true.
+Theorem replay_implies_steps_ok anc auto deny names steps : forall w,
+  replay anc auto deny names steps w = true -> steps_ok names steps = true.
 Proof.
   induction steps as [|s r IH]; intros w Hr; [reflexivity|].
-  destruct s as [m c|m t|m b|pre post|ns pre post pushed rejected unexported];
+  destruct s as [m c|m t|m b|pre post|ns pre post pushed rejected rrejected unexported];
     cbn [replay steps_ok] in *.
   - eapply IH; eassumption.
   - eapply IH; eassumption.
   - eapply IH; eassumption.
   - destruct (fetch anc auto (w_view w) (w_remote w)) as [v' b'].
     rewrite !Bool.andb_true_iff in Hr. destruct Hr as [_ Hrest]. eapply IH; eassumption.
-  - set (q := push git_srv (w_view w) (w_remote w) (w_backing w) ns) in *.
+  - set (q := push (git_srv deny) (w_view w) (w_remote w) (w_backing w) ns) in *.
     rewrite !Bool.andb_true_iff in Hr.
-    destruct Hr as [[[[[[[[Hs _] _] Hpre] Hpost] Hp] Hj] Hu] Hrest].
+    destruct Hr as [[[[[[[[[Hs _] _] Hpre] Hpost] Hp] Hj] Hrj] Hu] Hrest].
     apply nodupb_spec in Hs.
-    apply list_eqb_N_spec in Hp, Hj. apply N.eqb_eq in Hu.
-    rewrite !Bool.andb_true_iff. split; [split; [split; [split|]|]|].
+    apply list_eqb_N_spec in Hp, Hj, Hrj. apply N.eqb_eq in Hu.
+    pose proof (fun x => pushed_or_rejected (git_srv deny) (w_view w) (w_remote w) (w_backing w) ns x Hs) as PR.
+    rewrite !Bool.andb_true_iff. split; [split; [split; [split; [split|]|]|]|].
     + apply forallb_forall. intros n Hn. apply push_name_ok_spec.
-      pose proof (model_push_ok (w_view w) (w_remote w) (w_backing w) ns n Hs) as M.
-      cbv zeta in M. fold q in M. rewrite Hp, Hj in M.
+      pose proof (model_push_ok deny (w_view w) (w_remote w) (w_backing w) ns n Hs) as M.
+      cbv zeta in M. fold q in M. rewrite Hp, Hj, Hrj in M.
       eapply PushOk_transfer; [| |exact M].
       * destruct w as [v rm bk]. exact (world_eqb_on_spec names _ pre Hpre n Hn).
       * exact (world_eqb_on_spec names _ post Hpost n Hn).
     + apply in_names_spec. intros x Hx. rewrite <- Hp in Hx.
-      destruct (pushed_or_rejected git_srv (w_view w) (w_remote w) (w_backing w) ns x Hs) as [_ [_ H]].
-      now apply H.
+      destruct (PR x) as [_ [_ [_ H]]]. now apply H.
     + apply in_names_spec. intros x Hx. rewrite <- Hj in Hx.
-      destruct (pushed_or_rejected git_srv (w_view w) (w_remote w) (w_backing w) ns x Hs) as [_ [H _]].
-      now apply H.
-    + destruct (pushed_recorded git_srv git_srv_accepted (w_view w) (w_remote w) (w_backing w) ns 0 Hs) as [U _].
+      destruct (PR x) as [_ [H _]]. now apply H.
+    + apply in_names_spec. intros x Hx. rewrite <- Hrj in Hx.
+      destruct (PR x) as [_ [_ [H _]]]. now apply H.
+    + destruct (pushed_recorded (git_srv deny) (git_srv_accepted deny) (w_view w) (w_remote w) (w_backing w) ns 0 Hs) as [U _].
       fold q in U. rewrite U in Hu. cbn in Hu. subst unexported. reflexivity.
     + eapply IH; eassumption.
 Qed.
 
 Theorem corr_implies_okb c :
   c_flags_ok c = true ->
-  replay (ancb (c_graph c)) (c_auto_track c) (c_names c) (c_steps c) empty_world = true ->
+  replay (ancb (c_graph c)) (c_auto_track c) (c_denied c) (c_names c) (c_steps c) empty_world = true ->
   okb c = true.
 Proof.
   intros Hf Hr. unfold okb. rewrite Hf. cbn [andb].
@@ -996,8 +1028,9 @@ Section FetchThenPush.
       now rewrite Hr.
   Qed.
 
-  Context (srv : N -> N -> N -> bool * N).
-  Hypothesis srv_complete : forall cur v, fst (srv cur cur v) = true.
+  Context (srv : N -> N -> N -> N -> answer * N).
+  (** a matching lease is never answered with a lease rejection *)
+  Hypothesis srv_complete : forall n cur v, fst (srv n cur cur v) <> LeaseRejected.
 
   (** fetch; (jj-side edits that do not touch the records); push, with no external update in
       between: nothing is rejected. Stated for any view whose records equal the remote. *)
@@ -1011,7 +1044,7 @@ Section FetchThenPush.
     { apply mem_spec. rewrite E. now left. }
     destruct (asked_dec v names n) as [[[b a] Hask]|Hno].
     - pose proof (requests_asked srv v remote names n b a Hnd Hask) as P. cbv zeta in P.
-      unfold pproj in P. injection P as _ _ P3. rewrite P3 in Hr.
+      unfold pproj in P. injection P as _ _ P3 _. rewrite P3 in Hr.
       apply ref_updates_in in Hask. destruct Hask as [_ Hc].
       pose proof Hc as Hc'. apply classify_update in Hc'. destruct Hc' as [Hb [_ [_ [Hcf _]]]].
       (* the lease is the recorded value, which is the remote's *)
@@ -1026,8 +1059,9 @@ Section FetchThenPush.
           destruct (is_absent (r_target (rget (j_remote v) n))) eqn:A; [|discriminate].
           apply is_absent_spec in A. rewrite A in Hrec.
           rewrite Hb. unfold absent, resolved in Hrec. injection Hrec as <-. reflexivity. }
-      rewrite Hcur, srv_complete in Hr. discriminate.
+      rewrite Hcur in Hr. pose proof (srv_complete n b a) as SC.
+      destruct (fst (srv n b b a)); cbn [answer_eqb] in Hr; congruence.
     - pose proof (requests_not_asked srv v remote names n Hno) as P.
-      unfold pproj in P. injection P as _ _ P3. rewrite P3 in Hr. discriminate.
+      unfold pproj in P. injection P as _ _ P3 _. rewrite P3 in Hr. discriminate.
   Qed.
 End FetchThenPush.
